@@ -16,6 +16,9 @@ fn alphabet() -> Vec<RVal> {
         RVal::arr(vec![RVal::u(1)]),
         RVal::arr(vec![RVal::f(1.0)]),
         RVal::obj(vec![("a", RVal::u(1))]),
+        // payloads that need the 2nd byte of the length field
+        RVal::Str("L".repeat(300)),
+        RVal::arr(vec![RVal::Str("M".repeat(256))]),
     ]
 }
 
@@ -148,6 +151,29 @@ pub fn spaces(tier: Tier) -> Vec<Space<'static>> {
             }
         }
         acc.sample(|| json!({"a": format!("{:?}", a), "b": format!("{:?}", v2[(i * 5 + 1) % n])}));
+    }));
+    // size sweep: every N up to the limit, list with many duplicates against three related lists
+    let sz = Arc::new(crate::checks::scale::sizes_heavy(tier));
+    sp.push(Space::new("size sweep: N-element lists with duplicates", sz.len() as u64, move |i, acc| {
+        let n = sz[i as usize];
+        let a = crate::checks::scale::sized(2, n);
+        let others = [crate::checks::scale::sized(2, n / 2), crate::checks::scale::sized(0, n.min(40)), RVal::Arr(vec![RVal::s("dup"), RVal::f(0.0), RVal::Str("L".repeat(300))])];
+        let ab = enc(&a);
+        let ctx = || json!({"N": n});
+        acc.nontrivial += 1;
+        call("distinct", |buf| jsonb::array_distinct(&ab, buf), &ops::array_distinct(&a), acc, &ctx);
+        for o in &others {
+            let ob = enc(o);
+            call("intersection", |buf| jsonb::array_intersection(&ab, &ob, buf), &ops::array_intersection(&a, o), acc, &ctx);
+            call("except", |buf| jsonb::array_except(&ab, &ob, buf), &ops::array_except(&a, o), acc, &ctx);
+            call("intersection", |buf| jsonb::array_intersection(&ob, &ab, buf), &ops::array_intersection(o, &a), acc, &ctx);
+            call("except", |buf| jsonb::array_except(&ob, &ab, buf), &ops::array_except(o, &a), acc, &ctx);
+            acc.eval();
+            match guard(|| jsonb::array_overlap(&ab, &ob)) {
+                Ok(Ok(x)) if x == ops::array_overlap(&a, o) => {}
+                other => acc.vio("overlap:differs-from-multiset-model", || json!({"N": n, "observed": format!("{:?}", other)})),
+            }
+        }
     }));
     sp
 }
